@@ -280,36 +280,94 @@ func (c *caseT) endBlock() {
 	}
 }
 
-// signSome: assigned members of WAITING signings submit their real partial signatures (all, or a subset)
-func (c *caseT) signSome() {
+// signSid: the assigned members of one WAITING signing submit their real partial signatures
+func (c *caseT) signSid(s uint64, skipOne bool) {
 	tk := c.app.TSSKeeper
-	for s := uint64(1); s <= tk.GetSigningCount(c.ctx); s++ {
-		sg, err := tk.GetSigning(c.ctx, tss.SigningID(s))
-		if err != nil || sg.Status != tsstypes.SIGNING_STATUS_WAITING {
+	sg, err := tk.GetSigning(c.ctx, tss.SigningID(s))
+	if err != nil || sg.Status != tsstypes.SIGNING_STATUS_WAITING {
+		return
+	}
+	g, ok := c.groups[sg.GroupID]
+	if !ok {
+		return
+	}
+	sa, err := tk.GetSigningAttempt(c.ctx, sg.ID, sg.CurrentAttempt)
+	if err != nil {
+		return
+	}
+	for i, am := range sa.AssignedMembers {
+		if skipOne && i == 0 {
 			continue
 		}
-		g, ok := c.groups[sg.GroupID]
-		if !ok {
+		if tk.HasPartialSignature(c.ctx, sg.ID, sg.CurrentAttempt, am.MemberID) {
 			continue
 		}
-		sa, err := tk.GetSigningAttempt(c.ctx, sg.ID, sg.CurrentAttempt)
+		sig, err := g.Sign(c.ctx, tk, sg.ID, am.MemberID)
 		if err != nil {
 			continue
 		}
-		skipOne := c.r.Chance(1, 3)
-		for i, am := range sa.AssignedMembers {
-			if skipOne && i == 0 {
-				continue
+		msg := tsstypes.NewMsgSubmitSignature(sg.ID, am.MemberID, sig, am.Address)
+		fx.Atomically(c.ctx, func(ctx sdk.Context) error { _, err := c.tms.SubmitSignature(ctx, msg); return err })
+	}
+}
+
+// signSome: assigned members of WAITING signings submit their real partial signatures (all, or a subset)
+func (c *caseT) signSome() {
+	for s := uint64(1); s <= c.app.TSSKeeper.GetSigningCount(c.ctx); s++ {
+		c.signSid(s, c.r.Chance(1, 3))
+	}
+}
+
+// staleScenario: the hand-over signing of a transition that was dropped at its execution time is completed
+// LATER, while the next transition is waiting for ITS hand-over signature (long signing period).
+func (c *caseT) staleScenario() {
+	bk, tk := c.app.BandtssKeeper, c.app.TSSKeeper
+	toWaitingSign := func() (uint64, bool) {
+		for i := 0; i < 6; i++ {
+			if _, ok := bk.GetGroupTransition(c.ctx); ok {
+				break
 			}
-			if tk.HasPartialSignature(c.ctx, sg.ID, sg.CurrentAttempt, am.MemberID) {
-				continue
+			c.propose()
+		}
+		for i := 0; i < 14; i++ {
+			tr, ok := bk.GetGroupTransition(c.ctx)
+			if !ok {
+				return 0, false
 			}
-			sig, err := g.Sign(c.ctx, tk, sg.ID, am.MemberID)
-			if err != nil {
-				continue
+			if tr.Status == bandtsstypes.TRANSITION_STATUS_WAITING_SIGN {
+				return uint64(tr.SigningID), true
 			}
-			msg := tsstypes.NewMsgSubmitSignature(sg.ID, am.MemberID, sig, am.Address)
-			fx.Atomically(c.ctx, func(ctx sdk.Context) error { _, err := c.tms.SubmitSignature(ctx, msg); return err })
+			if c.dkg != nil && c.dkg.Round < 3 {
+				if err := c.dkg.Send(c.ctx, tk); err != nil {
+					c.tr.Tag("dkg-send-error")
+				}
+			}
+			c.endBlock()
+		}
+		return 0, false
+	}
+	s1, ok := toWaitingSign()
+	if !ok {
+		return
+	}
+	for i := 0; i < 90; i++ { // nobody signs: dropped at its execution time
+		if _, ok := bk.GetGroupTransition(c.ctx); !ok {
+			break
+		}
+		c.endBlock()
+	}
+	if _, ok := bk.GetGroupTransition(c.ctx); ok {
+		return
+	}
+	if _, ok := toWaitingSign(); !ok {
+		return
+	}
+	c.tr.Tag("stale-handover-signed-late")
+	c.signSid(s1, false)
+	for i := 0; i < 90; i++ {
+		c.endBlock()
+		if _, ok := bk.GetGroupTransition(c.ctx); !ok {
+			break
 		}
 	}
 }
@@ -355,6 +413,10 @@ func runCase(app *fx.App, tr *fx.Trace, r *fx.Rng, caseNo int) {
 	c.setClock()
 	c.minDur = int64(r.PickInt(1, 5, 10)) * 1_000_000_000
 	c.maxDur = c.minDur + int64(r.PickInt(0, 10, 60))*1_000_000_000
+	stale := r.Chance(1, 6)
+	if stale {
+		c.maxDur = c.minDur + 10_000_000_000
+	}
 	c.fee = int64(r.PickInt(0, 10))
 	bp := app.BandtssKeeper.GetParams(c.ctx)
 	bp.MinTransitionDuration, bp.MaxTransitionDuration = time.Duration(c.minDur), time.Duration(c.maxDur)
@@ -365,6 +427,9 @@ func runCase(app *fx.App, tr *fx.Trace, r *fx.Rng, caseNo int) {
 	fx.Must(app.BandtssKeeper.SetParams(c.ctx, bp))
 	tp := app.TSSKeeper.GetParams(c.ctx)
 	tp.SigningPeriod, tp.MaxSigningAttempt, tp.CreationPeriod, tp.MaxDESize = uint64(r.PickInt(1, 2)), uint64(r.PickInt(1, 2)), uint64(r.PickInt(2, 4, 8)), 20
+	if stale { // signings stay open for the whole case
+		tp.SigningPeriod, tp.MaxSigningAttempt = 500, 1
+	}
 	fx.Must(app.TSSKeeper.SetParams(c.ctx, tp))
 	app.Fund(c.ctx, c.req.Address, "uband", sdkmath.NewInt(1_000_000))
 	tr.Reset(fx.M{"minDur": fx.I(c.minDur), "maxDur": fx.I(c.maxDur)})
@@ -382,6 +447,9 @@ func runCase(app *fx.App, tr *fx.Trace, r *fx.Rng, caseNo int) {
 		fx.Must(err)
 		c.registerGroup(g, false)
 		c.supplyDEs(g)
+	}
+	if stale {
+		c.staleScenario()
 	}
 	n := r.Range(15, 60)
 	for i := 0; i < n; i++ {
